@@ -24,6 +24,7 @@ C15/zone-colour, C15/matrix-size, C15/wrong-cells, C15/plain-set-differs, C15/re
 """
 import collections
 import json
+import logging
 import math
 
 import common
@@ -315,6 +316,18 @@ def configure_population(lights, pop):
     return collect
 
 
+class _Collector(logging.Handler):
+    def __init__(self):
+        super().__init__(logging.ERROR)
+        self.messages = []
+
+    def emit(self, record):
+        try:
+            self.messages.append(record.getMessage())
+        except Exception:
+            self.messages.append(str(record.msg))
+
+
 def run_real(lights, source, pop):
     """Parser + Machine on the population.  Returns dict(parse_ok, aborted, events{tag: [...]})."""
     from bardolph.parser.parse import Parser
@@ -329,13 +342,25 @@ def run_real(lights, source, pop):
         return {'parse_ok': False, 'error': str(parser.get_errors()), 'aborted': True, 'events': {}}
     machine = Machine()
     escaped = None
+    # Machine.run logs the exception that stops a script; collect that message
+    root = logging.getLogger()
+    saved = (root.handlers[:], root.level)
+    collector = _Collector()
+    root.handlers = [collector]
+    root.setLevel(logging.ERROR)
+    logging.disable(logging.NOTSET)
     try:
         machine.run(parser.get_program())
-    except Exception as ex:   # Machine.run logs and stops; anything escaping it is noted
+    except Exception as ex:   # anything escaping Machine.run is noted
         escaped = '%s: %s' % (type(ex).__name__, ex)
-    aborted = escaped is not None or machine._reg.pc < len(machine._program)
+    finally:
+        root.handlers, lvl = saved
+        root.setLevel(lvl)
+        logging.disable(logging.CRITICAL)
+    reasons = [m for m in collector.messages if m.startswith('Machine stopped due to')]
+    aborted = escaped is not None or machine._reg.pc < len(machine._program) or bool(reasons)
     return {'parse_ok': True, 'aborted': aborted, 'escaped': escaped, 'events': collect(),
-            'pc': machine._reg.pc, 'len': len(machine._program)}
+            'reason': (reasons[0] if reasons else escaped), 'pc': machine._reg.pc, 'len': len(machine._program)}
 
 
 def num_lit(v):
@@ -1023,11 +1048,12 @@ def classify(desc, real, spec_ids, expected, tx):
     if not real['parse_ok']:
         return 'C15/rejected', 'the script is rejected by the compiler: %s' % real.get('error')
     if real['aborted']:
-        if has_float_index(desc):
+        reason = str(real.get('reason'))
+        if has_float_index(desc) and "'float' object cannot be interpreted as an integer" in reason:
             return ('C15/float-index-aborts-script',
                     'a row/column number that is a float (from an expression with / or an interpolating loop) aborts the script'
-                    ' at instruction %s of %s; nothing more is transmitted' % (real.get('pc'), real.get('len')))
-        return 'C15/script-aborted', 'the script aborts at instruction %s of %s' % (real.get('pc'), real.get('len'))
+                    ' (%s, of %s instructions); nothing more is transmitted' % (reason, real.get('len')))
+        return 'C15/script-aborted', 'the script aborts (%s, of %s instructions)' % (reason, real.get('len'))
     for l in desc['lights']:
         tag = l['tag']
         got = real['events'].get(tag, [])
@@ -1040,7 +1066,15 @@ def classify(desc, real, spec_ids, expected, tx):
             ng, nw = sum(1 for e in got if e[0] == kind), sum(1 for e in want if e[0] == kind)
             if ng != nw:
                 return sig, 'light %s receives %d %s messages, the script denotes %d' % (l['name'], ng, what, nw)
+        mstmts = [st for st in desc['stmts'] if st[0] in ('inline', 'block') and st[1] == tag]
+        n_m = 0
         for g, wnt, idev in zip(got, want, ids):
+            stage_cids = set()
+            if g[0] == 'M':
+                if n_m < len(mstmts):
+                    st = mstmts[n_m]
+                    stage_cids = {x['cid'] for x in ([st[4]] if st[0] == 'inline' else st[4])}
+                n_m += 1
             if g == wnt:
                 continue
             if g[0] != wnt[0]:
@@ -1053,7 +1087,8 @@ def classify(desc, real, spec_ids, expected, tx):
                 return 'C15/zone-colour', 'light %s: zone colour %r, a plain set transmits %r' % (l['name'], g[3], wnt[3])
             if g[1:3] != wnt[1:3] or len(g[3]) != len(wnt[3]):
                 return 'C15/matrix-size', 'light %s: tile message %sx%s with %d cells, the light is %sx%s' % (l['name'], g[1], g[2], len(g[3]), wnt[1], wnt[2])
-            alt = [alt_rounded_first(i, desc['colours']) if i >= 0 else wc for i, wc in zip(idev[3], wnt[3])]
+            # only a staged colour can have been rounded before conversion (the default is saved converted)
+            alt = [alt_rounded_first(i, desc['colours']) if i in stage_cids else wc for i, wc in zip(idev[3], wnt[3])]
             bad = [k for k in range(len(g[3])) if g[3][k] != wnt[3][k]]
             k = bad[0]
             where = 'row %d column %d' % (k // wnt[2], k % wnt[2])
